@@ -850,6 +850,26 @@ def matrix(ctx, jinja2):
                 mx.apply("C22", "dictsort", dict(d), a, ("case_sensitive", "by", "reverse"),
                          expect=(lambda d=d, a=a: sorted(d.items(), key=lambda kv: kv[1 if len(a) > 1 and a[1] == "value" else 0],
                                                          reverse=bool(len(a) > 2 and a[2]))))
+        # dict items whose KEYS are spelled like dict methods / attributes: an attribute path looks a part up as a
+        # key first (Environment.getitem), so the values come back, never bound methods
+        for name in ("items", "values", "keys", "get", "update", "pop", "copy", "count", "index", "__class__"):
+            rows = [{name: v, "i": i} for i, v in enumerate(["b", "A", "a", "b"])]
+            nums = [{name: n} for n in (3, 1, 2)]
+            get = (lambda r, name=name: r[name])
+            mx.apply("C22", "map", list(rows), {"attribute": name}, (), expect=lambda rows=rows, get=get: [get(r) for r in rows])
+            mx.apply("C22", "join", list(rows), ("|", name), ("d", "attribute"), expect=lambda rows=rows, get=get: "|".join(get(r) for r in rows))
+            mx.apply("C22", "sum", list(nums), (name,), ("attribute",), expect=lambda nums=nums, get=get: sum(get(r) for r in nums))
+            mx.apply("C22", "min", list(nums), (False, name), ("case_sensitive", "attribute"), expect=lambda nums=nums, get=get: min(nums, key=get))
+            mx.apply("C22", "max", list(nums), (False, name), ("case_sensitive", "attribute"), expect=lambda nums=nums, get=get: max(nums, key=get))
+            mx.apply("C22", "sort", list(rows), (False, True, name), ("reverse", "case_sensitive", "attribute"),
+                     expect=lambda rows=rows, get=get: sorted(rows, key=get))
+            mx.apply("C22", "unique", list(rows), (True, name), ("case_sensitive", "attribute"),
+                     expect=lambda rows=rows, get=get: [r for i, r in enumerate(rows) if get(r) not in [get(q) for q in rows[:i]]])
+            mx.apply("C22", "selectattr", list(rows), (name, "equalto", "a"), (), expect=lambda rows=rows, get=get: [r for r in rows if get(r) == "a"])
+            mx.apply("C22", "rejectattr", list(rows), (name, "equalto", "a"), (), expect=lambda rows=rows, get=get: [r for r in rows if get(r) != "a"])
+            mx.apply("C22", "groupby", list(rows), (name, None, True), ("attribute", "default", "case_sensitive"),
+                     expect=lambda rows=rows, get=get: [[k, [r for r in rows if get(r) == k]] for k in sorted({get(r) for r in rows})])
+            mx.apply("C22", "map", [{"p": r} for r in rows], {"attribute": "p." + name}, (), expect=lambda rows=rows, get=get: [get(r) for r in rows])
         # float items: the builtin sum of the sync filter adds floats with compensation (Python >= 3.12), so
         # sequences whose naive left-to-right sum differs must give the same result in every environment
         import math
